@@ -251,7 +251,7 @@ def s_rerun(draw, max_steps=40):
 
 def parts(tier):
     if tier == 'quick':
-        return [Part('split', check_split, strategy=s_split(30), examples=80, shards=4),
-                Part('rerun', check_rerun, strategy=s_rerun(30), examples=80, shards=4)]
+        return [Part('split', check_split, strategy=s_split(30), examples=200, shards=4),
+                Part('rerun', check_rerun, strategy=s_rerun(30), examples=200, shards=4)]
     return [Part('split', check_split, strategy=s_split(100), examples=1500, shards=8),
             Part('rerun', check_rerun, strategy=s_rerun(100), examples=1500, shards=8)]
